@@ -212,3 +212,192 @@ Proof.
   - now rewrite N.eqb_refl.
   - rewrite app_length. pose proof (join_len (x :: ms)). simpl in *. lia.
 Qed.
+
+(* ---- what the sink writes for the pairs it is handed (json_sink_line) --------------------------- *)
+Lemma opt_pairs_esc esc named : opt_pairs (option_map (esc_pairs esc) named) = esc_pairs esc (opt_pairs named).
+Proof. destruct named; reflexivity. Qed.
+
+(* the members of the sink line: the fixed ones, then the handed pairs after _append_escaping_newlines *)
+Definition sink_members_of (esc : bool) (h : hdr) (t : str) (named : option (list (str * str))) : list (str * str) :=
+  fixed_members h t ++ esc_pairs esc (opt_pairs named).
+
+Theorem json_sink_line_shape esc h t named :
+  json_sink_line esc h t named = LB :: join [COMMA] (map mtext (sink_members_of esc h t named)) ++ [RB; NL].
+Proof.
+  unfold json_sink_line, sink_members_of. rewrite json_line_shape. unfold members_of. now rewrite opt_pairs_esc.
+Qed.
+
+Lemma esc_nl_no_nl s : no_nl (esc_nl s) = true.
+Proof.
+  induction s as [|c s IH]; [reflexivity|].
+  change (esc_nl (c :: s)) with ((if N.eqb c NL then [BSL; 110%N] else [c]) ++ esc_nl s).
+  rewrite no_nl_app, IH, andb_true_r. destruct (N.eqb c NL) eqn:E; [reflexivity|].
+  simpl. now rewrite E.
+Qed.
+
+Lemma esc_pairs_no_nl l : pairs_ok no_nl (esc_pairs true l) = true.
+Proof.
+  induction l as [|[k v] l IH]; [reflexivity|].
+  simpl. now rewrite !esc_nl_no_nl, IH.
+Qed.
+
+(* esc_nl is the identity on a text without a newline, and otherwise exactly: every newline becomes
+   the two bytes '\' 'n', every other byte is kept *)
+Lemma esc_nl_id s : no_nl s = true -> esc_nl s = s.
+Proof.
+  induction s as [|c s IH]; intros H; [reflexivity|].
+  simpl in H. apply andb_true_iff in H as [Hc Hs]. apply negb_true_iff in Hc.
+  change (esc_nl (c :: s)) with ((if N.eqb c NL then [BSL; 110%N] else [c]) ++ esc_nl s).
+  now rewrite Hc, (IH Hs).
+Qed.
+
+Lemma esc_nl_app a b : esc_nl (a ++ b) = esc_nl a ++ esc_nl b.
+Proof. unfold esc_nl. now rewrite flat_map_app. Qed.
+
+Lemma esc_nl_cons_nl s : esc_nl (NL :: s) = BSL :: 110%N :: esc_nl s.
+Proof. reflexivity. Qed.
+
+(* the repaired sink (esc = true): exactly one '\n', the last byte, for EVERY list of pairs *)
+Theorem json_sink_one_line h t named :
+  hdr_ok no_nl h = true ->
+  exists body, json_sink_line true h t named = body ++ [NL] /\ no_nl body = true.
+Proof.
+  intros Hh. unfold json_sink_line. apply json_one_line; [exact Hh|].
+  rewrite opt_pairs_esc. apply esc_pairs_no_nl.
+Qed.
+
+Lemma plain_no_nl s : plain_str s = true -> no_nl s = true.
+Proof.
+  induction s as [|c s IH]; intros H; [reflexivity|].
+  simpl in H. apply andb_true_iff in H as [Hc Hs]. simpl. rewrite (IH Hs), andb_true_r.
+  apply negb_true_iff, N.eqb_neq. intros ->. discriminate.
+Qed.
+
+Lemma esc_pairs_plain esc l : pairs_ok plain_str l = true -> esc_pairs esc l = l.
+Proof.
+  destruct esc.
+  - induction l as [|[k v] l IH]; intros H; [reflexivity|].
+    simpl in H. apply andb_true_iff in H as [Hkv Hl]. apply andb_true_iff in Hkv as [Hk Hv].
+    simpl. now rewrite (esc_nl_id k (plain_no_nl k Hk)), (esc_nl_id v (plain_no_nl v Hv)), (IH Hl).
+  - intros _. induction l as [|[k v] l IH]; [reflexivity|]. simpl. now rewrite IH.
+Qed.
+
+(* both variants: when no byte of any field needs escaping the sink line is the JSON object with
+   the fixed members and the handed pairs *)
+Theorem json_sink_parses esc h t named :
+  hdr_ok plain_str h = true -> plain_str (no_newlines t) = true ->
+  pairs_ok plain_str (opt_pairs named) = true ->
+  json_parse_line (json_sink_line esc h t named) = Some (members_of h t named).
+Proof.
+  intros Hh Ht Hp. unfold json_sink_line.
+  assert (E : option_map (esc_pairs esc) named = named).
+  { destruct named as [l|]; [|reflexivity]. simpl in *. now rewrite (esc_pairs_plain esc l Hp). }
+  rewrite E. now apply json_parses.
+Qed.
+
+(* the pinned sink (esc = false): one line when no key or value holds a newline *)
+Theorem json_one_line_pinned h t named :
+  hdr_ok no_nl h = true -> pairs_ok no_nl (opt_pairs named) = true ->
+  exists body, json_sink_line false h t named = body ++ [NL] /\ no_nl body = true.
+Proof.
+  intros Hh Hp. unfold json_sink_line. apply json_one_line; [exact Hh|].
+  rewrite opt_pairs_esc. destruct named as [l|]; [|reflexivity]. simpl in *.
+  replace (esc_pairs false l) with l; [exact Hp|].
+  clear Hp. induction l as [|[k v] l IH]; [reflexivity|]. simpl. now rewrite <- IH.
+Qed.
+
+(* ---- the repaired sink line as JSON when keys / values hold newlines ---------------------------- *)
+(* [raw], written between quotes, is a JSON string denoting [dec] *)
+Definition denotes (raw dec : str) : Prop := forall rest, jstring (raw ++ QUOTE :: rest) = Some (dec, rest).
+
+Lemma denotes_plain v : plain_str v = true -> denotes v v.
+Proof. intros H rest. now apply jstring_plain. Qed.
+
+(* a byte that needs no escaping, or a newline *)
+Definition plain_or_nl (c : N) : bool := plain c || N.eqb c NL.
+Definition plain_nl_str (s : str) : bool := forallb plain_or_nl s.
+
+Lemma denotes_esc_nl : forall v, plain_nl_str v = true -> denotes (esc_nl v) v.
+Proof.
+  induction v as [|c v IH]; intros H rest; [reflexivity|].
+  simpl in H. apply andb_true_iff in H as [Hc Hv]. specialize (IH Hv rest).
+  destruct (N.eqb c NL) eqn:E.
+  - apply N.eqb_eq in E. subst c. rewrite esc_nl_cons_nl. cbn [app jstring].
+    replace (N.eqb BSL QUOTE) with false by reflexivity. rewrite N.eqb_refl.
+    replace (unesc 110) with (Some NL) by reflexivity. now rewrite IH.
+  - unfold plain_or_nl in Hc. rewrite E, orb_false_r in Hc.
+    destruct (plain_facts c Hc) as [H1 [H2 H3]].
+    change (esc_nl (c :: v)) with ((if N.eqb c NL then [BSL; 110%N] else [c]) ++ esc_nl v).
+    rewrite E. cbn [app jstring]. now rewrite H1, H2, H3, IH.
+Qed.
+
+Lemma jmember_denotes rk dk rv dv rest :
+  denotes rk dk -> denotes rv dv -> jmember (member rk rv ++ rest) = Some ((dk, dv), rest).
+Proof.
+  intros Hk Hv. unfold member.
+  replace ((QUOTE :: rk ++ [QUOTE; COLON; QUOTE] ++ rv ++ [QUOTE]) ++ rest)
+    with (QUOTE :: rk ++ QUOTE :: COLON :: QUOTE :: (rv ++ QUOTE :: rest))
+    by (simpl; rewrite <- !app_assoc; simpl; now rewrite <- app_assoc).
+  unfold jmember. rewrite N.eqb_refl, Hk. simpl. now rewrite Hv.
+Qed.
+
+Definition pair_denotes (raw dec : str * str) : Prop :=
+  denotes (fst raw) (fst dec) /\ denotes (snd raw) (snd dec).
+
+Lemma jmembers_denotes : forall (raws decs : list (str * str)) (x y : str * str) (fuel : nat) (rest : str),
+  Forall2 pair_denotes (x :: raws) (y :: decs) -> length (x :: raws) <= fuel ->
+  jmembers fuel (join [COMMA] (map mtext (x :: raws)) ++ RB :: rest) = Some (y :: decs, rest).
+Proof.
+  induction raws as [|x2 raws IH]; intros decs [rk rv] [dk dv] fuel rest H Hf;
+    inversion H as [|? ? ? ? [Hk Hv] Hr]; subst; simpl in Hk, Hv.
+  - inversion Hr; subst. destruct fuel as [|f]; [simpl in Hf; lia|].
+    simpl join. unfold mtext. simpl fst. simpl snd. cbn [jmembers].
+    rewrite (jmember_denotes rk dk rv dv _ Hk Hv). now rewrite N.eqb_refl.
+  - destruct decs as [|y2 decs]; [inversion Hr|].
+    destruct fuel as [|f]; [simpl in Hf; lia|].
+    change (join [COMMA] (map mtext ((rk, rv) :: x2 :: raws)))
+      with (member rk rv ++ [COMMA] ++ join [COMMA] (map mtext (x2 :: raws))).
+    rewrite <- !app_assoc. cbn [jmembers]. rewrite (jmember_denotes rk dk rv dv _ Hk Hv).
+    cbn [app]. replace (N.eqb COMMA RB) with false by reflexivity. rewrite N.eqb_refl.
+    rewrite (IH decs x2 y2 f rest Hr) by (simpl in *; lia). reflexivity.
+Qed.
+
+Lemma Forall2_plain_self : forall l : list (str * str),
+  pairs_ok plain_str l = true -> Forall2 pair_denotes l l.
+Proof.
+  induction l as [|[k v] l IH]; intros H; [constructor|].
+  simpl in H. apply andb_true_iff in H as [Hkv Hl]. apply andb_true_iff in Hkv as [Hk Hv].
+  constructor; [split; simpl; now apply denotes_plain|now apply IH].
+Qed.
+
+Lemma Forall2_esc_pairs : forall l : list (str * str),
+  pairs_ok plain_nl_str l = true -> Forall2 pair_denotes (esc_pairs true l) l.
+Proof.
+  induction l as [|[k v] l IH]; intros H; [constructor|].
+  simpl in H. apply andb_true_iff in H as [Hkv Hl]. apply andb_true_iff in Hkv as [Hk Hv].
+  constructor; [split; simpl; now apply denotes_esc_nl|now apply IH].
+Qed.
+
+(* the repaired sink (esc = true): when the fixed fields need no escaping and the keys and values
+   hold only bytes that need none or newlines, the line is the JSON object whose members are the
+   fixed ones and the ORIGINAL keys and values (the newlines are back after decoding) *)
+Theorem json_sink_parses_nl h t named :
+  hdr_ok plain_str h = true -> plain_str (no_newlines t) = true ->
+  pairs_ok plain_nl_str (opt_pairs named) = true ->
+  json_parse_line (json_sink_line true h t named) = Some (members_of h t named).
+Proof.
+  intros Hh Ht Hp. rewrite json_sink_line_shape. unfold json_parse_line. rewrite N.eqb_refl.
+  assert (HF : Forall2 pair_denotes (sink_members_of true h t named) (members_of h t named)).
+  { unfold sink_members_of, members_of. apply Forall2_app.
+    - apply Forall2_plain_self, fixed_plain; assumption.
+    - now apply Forall2_esc_pairs. }
+  remember (sink_members_of true h t named) as raws eqn:Er.
+  remember (members_of h t named) as decs eqn:Ed.
+  destruct raws as [|x raws]; [unfold sink_members_of, fixed_members in Er; discriminate|].
+  destruct decs as [|y decs]; [inversion HF|].
+  change (join [COMMA] (map mtext (x :: raws)) ++ [RB; NL])
+    with (join [COMMA] (map mtext (x :: raws)) ++ RB :: [NL]).
+  rewrite (jmembers_denotes raws decs x y _ [NL] HF).
+  - now rewrite N.eqb_refl.
+  - rewrite app_length. pose proof (join_len (x :: raws)). simpl in *. lia.
+Qed.
